@@ -39,10 +39,16 @@ func (c *Config) CountField(name string, opts ...Option) (int, error) {
 		return len(c.fields.array()) + len(c.fields.dict()), nil
 	}
 
-	if v, ok := c.fields.get(name); ok {
-		return v.Len(makeOptions(opts))
+	// (the name is a path when a path separator is given, as for the getters)
+	o := makeOptions(opts)
+	v, err := parsePathWithOpts(name, o).GetValue(c, o)
+	if err != nil {
+		return -1, err
 	}
-	return -1, raiseMissing(c, name)
+	if v == nil {
+		return -1, raiseMissing(c, name)
+	}
+	return v.Len(o)
 }
 
 // Bool reads a boolean setting returning an error if the setting has no
